@@ -173,6 +173,14 @@ def delay_rule(run, f, rid):
                     a, c = describe_val(b, du, rv["a"]), describe_val(b, du, rv["b"])
                     now_a, now_c = a[0] == "call" and a[1] == "common::now", c[0] == "call" and c[1] == "common::now"
                     ts_a, ts_c = "timestamp" in repr(a), "timestamp" in repr(c)
+                    # ... and it is the timestamp of the item at the top of THIS heap: when the body peeks at the heap,
+                    # the compared value must come from that peek (a timestamp of some other item, or of the other heap,
+                    # keeps the name and changes the source)
+                    peeks = [y for (y, tt) in b.calls() if norm(tt.get("callee") or "").endswith("BinaryHeap::peek") and (field_chain(b, du, tt["args"][0]) or ["?"])[-1] == heap]
+                    if peeks:
+                        def from_peek(o):
+                            return any(y in peeks for (y, _t) in backward(b, o, du, at=(ds[0][0], ds[0][1]), through_calls="all").calls)
+                        ts_a, ts_c = ts_a and from_peek(rv["a"]), ts_c and from_peek(rv["b"])
                     notdue_true = (rv["op"] == "Lt" and now_a and ts_c) or (rv["op"] == "Gt" and ts_a and now_c)
                     due_true = (rv["op"] in ("Ge",) and now_a and ts_c) or (rv["op"] == "Le" and ts_a and now_c)
                     if notdue_true or due_true:
